@@ -198,6 +198,14 @@ func TestC12Shutdown(t *testing.T) {
 			h.Act("gate %s", gate)
 		}
 
+		// (closing the connection may take its time: whoever gets there first
+		// sits in conn.Close while the other shutdown calls arrive)
+		var slowConn *sim.Conn
+		if cur := h.Current(); cur != nil && cur.Accepted() && !h.WritersParkedAny() && rapid.IntRange(0, 3).Draw(rt, "slowConnClose") == 0 {
+			slowConn = cur
+			cur.ParkClose()
+			h.Act("conn %d: Close will take its time", cur.N)
+		}
 		// the shutdown calls, concurrently
 		type closer struct {
 			call *sim.Call
@@ -234,6 +242,21 @@ func TestC12Shutdown(t *testing.T) {
 			}
 			closers = append(closers, cl)
 			h.PollQuiet(quiet, func() bool { return h.IsDone(cl.call) })
+		}
+		if slowConn != nil {
+			h.PollQuiet(quiet, func() bool { return slowConn.CloseParked() })
+			if slowConn.CloseParked() {
+				// somebody is inside conn.Close. A Close which has returned by
+				// now says the client is closed: the signals must agree.
+				for _, cl := range closers {
+					if cl.kind == "close" && h.IsDone(cl.call) {
+						h.checkSignals("when a Close call returned while another shutdown call was still closing the connection", true)
+					}
+				}
+				h.label("slow-close-of-the-connection-during-shutdown")
+			}
+			h.Act("conn %d: Close completes", slowConn.N)
+			slowConn.ReleaseClose()
 		}
 		// open the hook gate (placement only; it must not be needed)
 		if gate != "" {
